@@ -51,6 +51,7 @@ class Controller:
         self.deadlock = None
         self.lock_names = {}
         self.edges = set()          # lock-order edges (held -> requested)
+        self.wait_violations = []   # waits for a thread / the queue while holding a lock
 
     # ---------------------------------------------------------------- thread management
     def new_thread(self, target, name):
@@ -284,6 +285,8 @@ class CoQueue:
     def join(self):
         c = _CTRL
         if c and c.current:
+            if c.current.held:
+                c.wait_violations.append(("queue.join", list(c.current.held)))
             c.yield_point("qjoin?")
             c.block_until(lambda: self.unfinished == 0, "queue.join")
         elif self.unfinished:
@@ -312,6 +315,8 @@ class CoThread:
     def join(self, timeout=None):
         c = _CTRL
         if c.current:
+            if c.current.held:
+                c.wait_violations.append(("Thread.join", list(c.current.held)))
             c.yield_point("join?", self.st.tid)
             c.block_until(lambda: self.st.finished, f"join({self.st.name})")
 
